@@ -287,6 +287,14 @@ def run(ctx):
               random.Random(ctx["seed"] * 15485863 + 141), True, 1 if quick else 2)
     parts.finish()
     producer.evaluate(res, [dict(c) for c in producer.CORPUS] + prod_cases, "C14")
+    # readers and connections in a process with HISTORY: earlier read() calls abandoned (the real @timeout, a caller's wait_for,
+    # cancellation, a connection ended) at every suspension point, the Frame.create executor hop included, each history in a
+    # fresh python process so that the first use of a handler module can be the abandoned one (harness/history.py)
+    import history
+    parts2 = Parts(res)
+    parts2.run("reader / connection histories with abandoned calls, in fresh processes", history.evaluate, res,
+               random.Random(ctx["seed"] * 15485863 + 1415), tier, "C14")
+    parts2.finish()
     # the whole connection (producer AND consumers) after noise that contains checksum-valid stray frames from the
     # known non-controller addresses 0x00 / 0x56: the run of valid frames that follows reaches the device
     producer.evaluate_pipeline(res, producer.pipeline_cases(rng, 60 if quick else 1500,
@@ -300,6 +308,13 @@ def run(ctx):
 def replay(ctx):
     f = ctx["replay"].get("failure") or ctx["replay"].get("first_difference")
     i = f["input"]
+    if i.get("via") == "history":
+        import history
+        res = Result("C14")
+        res.rule = "replay of one recorded history of reader / connection sessions in a fresh process"
+        history.replay_case(res, i, "C14")
+        res.case(str(i["scenario"]))
+        return res
     if i.get("via") == "chunks":
         import chunks
         res = Result("C14")
